@@ -479,6 +479,10 @@ def r3(ctx, p, b):
                     continue
                 pos, c = paths.bool_atoms(g)
                 if c[0] == "bin" and c[1] in ("Eq", "Ne"):
+                    # `len.wrapping_sub(1)` / `saturating_sub(1)`: inside the loop len >= 1, so it is len - 1
+                    from ..loops import rewrite as _rw
+                    _sub = lambda n: ("bin", "Sub", n[2][0], n[2][1]) if n[0] == "call" and len(n[2]) == 2 and n[1].rsplit("::", 1)[-1] in ("wrapping_sub", "saturating_sub") else None
+                    c = (c[0], c[1], _rw(c[2], _sub), _rw(c[3], _sub))
                     dlt = to_poly(c[2], at_) - to_poly(c[3], at_)
                     if (dlt == want_d or (Poly.const(0) - dlt) == want_d) and ((c[1] == "Eq") == pos):
                         last_ok = True
